@@ -32,6 +32,12 @@ CORPUS = [
     ('1 < 2 < 3', '{}', False),
     ('3 > 2 > 1', '{}', True),
 ]
+# witnesses of the recorded findings: (query, record, truth the language defines, class)
+KNOWN_WITNESSES = [
+    ('a["x"].b == 1 and c == 2', '{"a":{"x":{"b":1}},"c":2}', True, "select-tail-scope"),
+    ('1 != a[0].b', '{"a":[{}]}', False, "select-tail-scope"),
+    ('a == 1.14', '{"a":1.14}', True, "oj-float-parse"),
+]
 
 
 def classify(ctx, q, sem_obj, rec_text):
@@ -109,6 +115,10 @@ def run(ctx):
     cases = []      # (kind, abstract query or None, query text, record text, expected truth or None, xml docs)
     for qt, rt, exp in CORPUS:
         cases.append(("corpus", None, qt, rt, exp, {}))
+    witness_class = {}
+    for qt, rt, exp, cls in KNOWN_WITNESSES:
+        witness_class[(qt, rt)] = cls
+        cases.append(("known-witness", None, qt, rt, exp, {}))
     small_q = kfl.small_queries()
     small_r = kfl.small_records()
     if quick:
@@ -171,12 +181,14 @@ def run(ctx):
             elif want_limit is not None and q is not None and "limit(" in qt and str(want_limit) != o["limit"]:
                 bad = {"kind": "limit", "query": qt, "record": rt, "expected_limit": want_limit, "observed_limit": o["limit"]}
             if bad:
-                cls = classify(ctx, q, sem_obj, rt)
+                cls = witness_class.get((qt, rt)) or classify(ctx, q, sem_obj, rt)
                 if cls and ctx.is_known(cls):
                     stats["known:" + cls] = stats.get("known:" + cls, 0) + 1
                 else:
                     bad["how"] = "vh-kfl eval"
                     ctx.violation(bad)
+            elif (qt, rt) in witness_class:
+                ctx.note("the witness of finding %s no longer reproduces: %s on %s" % (witness_class[(qt, rt)], qt, rt))
         if len(ctx.cov["samples"]) < 5 and verdict == "defined" and kind in ("random", "helper") and i % 97 == 0:
             ctx.sample({"query": qt, "record": rt, "truth": o["truth"], "limit": o["limit"]})
         # correspondence item
@@ -221,7 +233,7 @@ def run(ctx):
                             sem_obj.truth(q)
                     except kfl.Undefined:
                         pass
-                    cls = classify(ctx, q, sem_obj, rt)
+                    cls = witness_class.get((qt, rt)) or classify(ctx, q, sem_obj, rt)
                     if not (cls and ctx.is_known(cls)):
                         ctx.violation({"kind": "truth-vs-coq-spec", "query": qt, "record": rt, "observed": res[i]["truth"],
                                        "expected": not res[i]["truth"],
@@ -231,6 +243,12 @@ def run(ctx):
                 if code & 8:
                     ctx.broken.append("C12_limit instance fails on %r" % qt)
             ctx.log("correspondence: %d cases in %.1fs (%d with a defined Coq sem)" % (len(codes), time.time() - t0, sem_defined))
+    # the recorded finding map-order: the truth of this query on this record is not a function of the input
+    probe = kfl.run_cases(ctx, "eval", [['a.* == a[*]', '{"a":{"b":"xy","k":[1,2]}}']] * 24)
+    if len({(o.get("outcome"), o.get("truth")) for o in probe}) > 1:
+        ctx.is_known("map-order")
+    else:
+        ctx.note("the witness of finding map-order gave the same truth value on 24 evaluations")
     check_num(ctx, coq_ok)
     ctx.cov["oracle"] = stats
     ctx.cov["coq_sem_defined"] = sem_defined
